@@ -60,4 +60,15 @@ def same_generation_pair(rng):
                 sup="c_sup")
 
 
-FAMILIES = {"same_generation_pair": same_generation_pair, "slow_side_node": slow_side_node, "slow_producer": slow_producer, "long_sink": long_sink}
+def fast_node(rng):
+    """A node running more than ten times faster than the supervisor: more than ten slots of one kind per partition (slot names
+    s<kind>_<idx> reach two-digit indices; TOPOLOGICAL / GENERATIONAL supergraphs are uniform and run a kind's slots under lax.scan
+    in a stored order; seeded change C01-b sorted that order lexicographically)."""
+    ps = rng.choice([24, 32])
+    return dict(nodes=[_n("sup", 0, ps, 1, [1, 2]), _n("a", 1, 2, 0, [0, 1]), _n("b", 2, 8, 1, [1, 2])],
+                conns=[_c("a", "sup", window=2, cdist=[0, 1]), _c("b", "sup", window=1, delay=1, cdist=[1]),
+                       _c("sup", "a", name="in_sup", skip=True, window=1, cdist=[0, 1]), _c("a", "b", window=2, cdist=[0, 1])],
+                sup="sup")
+
+
+FAMILIES = {"fast_node": fast_node, "same_generation_pair": same_generation_pair, "slow_side_node": slow_side_node, "slow_producer": slow_producer, "long_sink": long_sink}
